@@ -1,6 +1,7 @@
 \* quick: histories of <= 2 revisions over 3 objects, all subsection styles
 SPECIFICATION Spec
 CONSTANTS OFFBYONE = FALSE
+  NULLZERO = FALSE
   Objs = {1, 2, 3}
   MaxRevs = 2
   Styles = {"one", "each", "runs"}
